@@ -671,11 +671,18 @@ def zones_equal(z1, z2):
     return z1.origin == z2.origin and z1.rdclass == z2.rdclass and zone_sig(z1) == zone_sig(z2)
 
 
+_CNAME_COMPANIONS = {5, 47, 50, 25}   # CNAME itself, NSEC, NSEC3, KEY (RFC 4035 2.5, RFC 3007) -- written out independently of dns.node
+
+
 def cname_violation(z):
+    """a node holding a CNAME together with other data (independent of the library's own classification tables)"""
     for name, node in z.nodes.items():
-        kinds = {dns.node.NodeKind.classify_rdataset(r) for r in node.rdatasets if len(r) > 0}
-        if dns.node.NodeKind.CNAME in kinds and dns.node.NodeKind.REGULAR in kinds:
-            return name
+        types = [(int(r.rdtype), int(r.covers)) for r in node.rdatasets if len(r) > 0]
+        if any(t == 5 for t, _ in types):
+            for t, cov in types:
+                eff = cov if t in (46, 24) else t      # a signature is judged by what it covers
+                if eff not in _CNAME_COMPANIONS:
+                    return name
     return None
 
 
